@@ -242,7 +242,35 @@ def check_dual_mode_calls(run, funcs, rule='R20'):
                                 ok = 'a row of %s, whose shape[1] == %d' % (g.iter.id, k)
                         if ok is None and matches('getvector(_X)', canon(fi, g.iter, inline=False)) is not None:
                             ok = 'an element of a vector'
-            if ok is not None:
+                        if ok is None and g.iter.id not in f.allparams:
+                            # the iterable is a local chosen in several arms (its = [x] under isvector(x, k); its = x under x.shape[1] == k):
+                            # every definition that reaches the loop is a sequence of k-vectors by the facts at ITS site
+                            IN, _OUT = reaching_defs(cfg, f.allparams)
+                            defs = [cfg.nodes[d] for (nm_, d) in IN.get(node.id, ()) if nm_ == g.iter.id] if node is not None else []
+                            good = []
+                            for dn in defs:
+                                da = dn.ast
+                                dfs = facts.get(dn.id, frozenset())
+                                v = da.value if isinstance(da, ast.Assign) and len(da.targets) == 1 and isinstance(da.targets[0], ast.Name) else None
+
+                                def vec(nm_):
+                                    return any(fc[1] and any(matches(p_ % (nm_, k), fc[2].ast) is not None for p_ in
+                                                             ('isvector(%s, %d)', 'base.isvector(%s, %d)', 'argcheck.isvector(%s, %d)', 'len(%s) == %d')) for fc in dfs)
+                                if isinstance(v, (ast.List, ast.Tuple)) and v.elts and all(isinstance(x_, ast.Name) and vec(x_.id) for x_ in v.elts):
+                                    good.append(True)
+                                elif isinstance(v, ast.Name) and any(fc[1] and matches('%s.shape[1] == %d' % (v.id, k), fc[2].ast) is not None for fc in dfs):
+                                    good.append(True)
+                                else:
+                                    good.append(False)
+                            if defs and all(good):
+                                ok = 'an element of %s, every definition of which is a sequence of %d-vectors' % (g.iter.id, k)
+                            elif defs and not any(good):
+                                pass
+                            else:
+                                ok = False        # mixed / unknown: not decided here
+            if ok is False:
+                run.undecided(rule, f.key, construct, 'the argument ranges over a local whose definitions are not all recognised', f=f, node=c)
+            elif ok is not None:
                 run.holds(rule, f.key, construct, 'the argument is a %d-vector: %s' % (k, ok), f=f, node=c)
             else:
                 run.violation(rule, f.key, construct, '%s is dual-mode: for a %dx%d matrix argument it returns the translation %d-vector instead of '
